@@ -1,2 +1,4 @@
 pub mod civil;
 pub mod lunar;
+pub mod pillar;
+pub mod terms;
